@@ -21,6 +21,7 @@ import LinOp.C09.ProofsScale
 import LinOp.C09.ProofsMulti
 import LinOp.C09.ProofsMultiOne
 import LinOp.C09.ProofsCompose
+import LinOp.C09.ProofsStart
 import LinOp.Generated.C09Consts
 
 set_option linter.unusedSectionVars false
@@ -361,6 +362,45 @@ theorem lanczos_tridiag_root_inv (hs : SqrtLaw ops) {A : Matrix (Fin n) (Fin n) 
     fun hn => root_inv_full_of_card ops hs.mul_self (Matrix.of o.Q) A (Matrix.of o.T) V θ (jitterOf ltb jit o.T)
       hn hQ hP hV hE hθ⟩
 
+/-! ### the start vector enters only through `v/‖v‖` (no eps, no clamp): invariance under positive rescaling -/
+
+/-- `lanczos_tridiag(A, init_vecs = c·v) = lanczos_tridiag(A, init_vecs = v)` for every `c > 0`, every size, budget,
+closure (no symmetry needed) and start vector (`√(c²x) = c√x` from the lawful square root): the SAME result — count, `Q`,
+`T`, extra passes.  True because the code normalises by the plain 2-norm (`generated_start_normalisation`); an eps added to
+or a clamp of the norm breaks it for small `‖v‖`. -/
+theorem lanczos_start_scale_invariant (hs : SqrtLaw ops) (maxIter : Nat) (v : Vec K n) (c : K) (hc : 0 < c) :
+    lanczosTridiag ops p amul maxIter (vscale v c) = lanczosTridiag ops p amul maxIter v :=
+  lanczosTridiag_scale hs amul maxIter v hc
+
+/-- The same for a multi-column call, every column with its own factor (one tiny column next to healthy ones): the coupled
+run — shared count included — is unchanged, so a tiny start vector cannot end the loop early for the other columns. -/
+theorem lanczos_multi_start_scale_invariant {C : Nat} {amuls : Fin C → Vec K n → Vec K n} (hs : SqrtLaw ops)
+    (maxIter : Nat) (vs : Vector (Vec K n) C) (cs : Fin C → K) (hc : ∀ c, 0 < cs c) :
+    lanczosMulti ops p amuls maxIter (Vector.ofFn fun c => vscale vs[c] (cs c)) = lanczosMulti ops p amuls maxIter vs :=
+  lanczosMulti_scale hs amuls maxIter vs cs hc
+
+/-- …and the returned first vector is the unit vector `v/‖v‖` itself. -/
+theorem lanczos_first_vector (hs : SqrtLaw ops) (hA : SelfAdj amul) (maxIter : Nat) (v : Vec K n)
+    (hv : fn v ⬝ᵥ fn v ≠ 0) (hg : p.guardsSingle = true) (h1 : 1 ≤ min maxIter n) :
+    ∃ o, lanczosTridiag ops p amul maxIter v = .ok o ∧ Qf o.st 0 = (ops.sqrt (fn v ⬝ᵥ fn v))⁻¹ • fn v := by
+  by_cases hc : (decide (1 < min maxIter n) &&
+      ops.gt (ops.abs (init0 ops amul (min maxIter n) v).2.2) p.breakTol) = true
+  · refine ⟨{ count := (loop ops p amul (min maxIter n) (min maxIter n - 1) 1 (init ops amul (min maxIter n) v)).1,
+              q := (loop ops p amul (min maxIter n) (min maxIter n - 1) 1 (init ops amul (min maxIter n) v)).2.q,
+              t := (loop ops p amul (min maxIter n) (min maxIter n - 1) 1 (init ops amul (min maxIter n) v)).2.t,
+              passes := (loop ops p amul (min maxIter n) (min maxIter n - 1) 1 (init ops amul (min maxIter n) v)).2.passes },
+      ?_, ?_⟩
+    · unfold lanczosTridiag
+      simp only [show ¬ min maxIter n = 0 by omega, if_false, hg, if_true, hc]
+    · show Qf (loop ops p amul (min maxIter n) (min maxIter n - 1) 1 (init ops amul (min maxIter n) v)).2 0 = _
+      rw [loop_Q0 amul _ _ 1 _ le_rfl]
+      exact init_Q0 ops amul _ v
+  · refine ⟨{ count := 1, q := (init0 ops amul (min maxIter n) v).1.q, t := (init0 ops amul (min maxIter n) v).1.t,
+              passes := 0 }, ?_, init0_Q0 ops amul _ v⟩
+    unfold lanczosTridiag
+    simp only [show ¬ min maxIter n = 0 by omega, if_false, hg, if_true, hc]
+    rfl
+
 /-! ### the coupled multi-column loop (`lanczosMulti`: all columns of one call in ONE loop) -/
 
 /-- LIFT of the single-column theorems through the coupled loop.  `C` columns (batch members × init vectors), each with
@@ -495,6 +535,32 @@ theorem generated_constants :
     Generated.C09.mask = "evals.ge(0)" ∧ Generated.C09.maskFill = 1 ∧
     Generated.C09.tridiagonalJitter = 1 / 1000000 ∧ Generated.C09.guardsSingle = true ∧
     Generated.C09.firstGuard = "num_iter > 1 and torch.sum(beta_0.abs() > 1e-06) > 0" := by
+  decide +kernel
+
+/-- The statements before the loop are the ones the model mirrors; in particular the start vector is normalised by its
+plain 2-norm — `init_vecs / torch.norm(init_vecs, 2, dim=-2)`, no eps, no clamp, no rescaling — which is what
+`lanczos_start_scale_invariant` rests on; and nothing between `if init_vecs is None:` and that statement touches supplied
+start vectors (`setup`).  (Second alternative: the two-step normalisation of notes/C09_fix_3.diff — first by the largest
+entry, a positive factor, then by the 2-norm — which is the same `v/‖v‖` by `lanczos_start_scale_invariant` and avoids the
+under/overflow of `‖v‖²`, open finding for float32.) -/
+theorem generated_start_normalisation :
+    Generated.C09.setup =
+      ["if init_vecs is None: init_vecs = torch.randn(matrix_shape[-1], num_init_vecs, dtype=dtype, device=device) init_vecs = init_vecs.expand(*batch_shape, matrix_shape[-1], num_init_vecs) else: if settings.debug.on(): if dtype != init_vecs.dtype: raise RuntimeError('Supplied dtype {} and init_vecs.dtype {} do not agree!'.format(dtype, init_vecs.dtype)) if device != init_vecs.device: raise RuntimeError('Supplied device {} and init_vecs.device {} do not agree!'.format(device, init_vecs.device)) if batch_shape != init_vecs.shape[:-2]: raise RuntimeError('batch_shape {} and init_vecs.shape {} do not agree!'.format(batch_shape, init_vecs.shape)) if matrix_shape[-1] != init_vecs.size(-2): raise RuntimeError('matrix_shape {} and init_vecs.shape {} do not agree!'.format(matrix_shape, init_vecs.shape)) num_init_vecs = init_vecs.size(-1)", "num_iter = min(max_iter, matrix_shape[-1])", "dim_dimension = -2", "if settings.verbose_linalg.on(): settings.verbose_linalg.logger.debug(f'Running Lanczos on a {matrix_shape} matrix with a {init_vecs.shape} RHS for {num_iter} iterations.')", "q_mat = torch.zeros(num_iter, *batch_shape, matrix_shape[-1], num_init_vecs, dtype=dtype, device=device)", "t_mat = torch.zeros(num_iter, num_iter, *batch_shape, num_init_vecs, dtype=dtype, device=device)"] ∧
+    (Generated.C09.preLoop =
+      ["q_0_vec = init_vecs / torch.norm(init_vecs, 2, dim=dim_dimension).unsqueeze(dim_dimension)",
+       "q_mat[0].copy_(q_0_vec)", "r_vec = matmul_closure(q_0_vec)", "alpha_0 = q_0_vec.mul(r_vec).sum(dim_dimension)",
+       "r_vec.sub_(alpha_0.unsqueeze(dim_dimension).mul(q_0_vec))", "beta_0 = torch.norm(r_vec, 2, dim=dim_dimension)",
+       "t_mat[0, 0].copy_(alpha_0)",
+       "if num_iter > 1 and torch.sum(beta_0.abs() > 1e-06) > 0: t_mat[0, 1].copy_(beta_0) t_mat[1, 0].copy_(beta_0) q_mat[1].copy_(r_vec.div_(beta_0.unsqueeze(dim_dimension))) else: num_iter = 1",
+       "k = 0"] ∨
+     Generated.C09.preLoop =
+      ["q_0_vec = init_vecs / init_vecs.abs().amax(dim=dim_dimension, keepdim=True)",
+       "q_0_vec = q_0_vec / torch.norm(q_0_vec, 2, dim=dim_dimension).unsqueeze(dim_dimension)",
+       "q_mat[0].copy_(q_0_vec)", "r_vec = matmul_closure(q_0_vec)", "alpha_0 = q_0_vec.mul(r_vec).sum(dim_dimension)",
+       "r_vec.sub_(alpha_0.unsqueeze(dim_dimension).mul(q_0_vec))", "beta_0 = torch.norm(r_vec, 2, dim=dim_dimension)",
+       "t_mat[0, 0].copy_(alpha_0)",
+       "if num_iter > 1 and torch.sum(beta_0.abs() > 1e-06) > 0: t_mat[0, 1].copy_(beta_0) t_mat[1, 0].copy_(beta_0) q_mat[1].copy_(r_vec.div_(beta_0.unsqueeze(dim_dimension))) else: num_iter = 1",
+       "k = 0"]) := by
   decide +kernel
 
 /-- The statements of the loop body, of the re-orthogonalisation block and of the extra-pass loop are the ones
